@@ -8,7 +8,8 @@ db.get_connection() user transaction, nested db_session (context managers and de
 generator db_session (run to the end / closed early / exception thrown in), explicit commit() /
 rollback() / db.commit() / db.rollback() inside, body raising (rollback path), allowed exception
 (commit path), decorator with retry, two sessions in a row, session followed by db.disconnect()},
-each started with an empty pool (cold) and with an idle pooled connection (warm), x every driver-call
+each started with an empty pool (cold), with an idle pooled connection (warm) and in a thread that has
+never connected (fresh; a subset of shapes in quick), x every driver-call
 index x three error classes (+ "commit happened, acknowledgement lost"); thorough adds every fault
 pair k1 < k2 (all class combinations). After the program:
   * provider.transaction_lock / pre_transaction_lock are not held;
@@ -219,13 +220,30 @@ def examine(w, x):
         comps += leak_components(w, mon)
     return sorted(set(comps))
 
+def setup_phase(calls):
+    """indexes of the connection set-up statements SQLitePool._connect issues right after connect"""
+    out, on = set(), False
+    for i, c in enumerate(calls):
+        if c[0] == 'connect': on = True
+        elif on and c[0] == 'execute' and c[1] and c[1].upper().startswith('PRAGMA'): out.add(i)
+        else: on = False
+    return out
+
 def sites(ref, x):
     out = []
+    setup = setup_phase(x.calls)
     for key, kind, f in x.fired:
         k = key[1] if isinstance(key, tuple) else key
         call = x.calls[k] if k < len(x.calls) else (kind, None)
-        out.append(('after-' if isinstance(key, tuple) else '') + fx.call_class(call))
+        out.append('connection-setup-statement' if k in setup else ('after-' if isinstance(key, tuple) else '') + fx.call_class(call))
     return '+'.join(out) or 'none'
+
+def family_of(family, x):
+    if x.fired:
+        key = x.fired[0][0]
+        k = key[1] if isinstance(key, tuple) else key
+        if k in setup_phase(x.calls) or (k < len(x.calls) and x.calls[k][0] == 'connect'): return 'connect-phase'
+    return family
 
 # ---- fault part: workers --------------------------------------------------------------------------------
 _W = {}
@@ -236,16 +254,30 @@ def world():
     return w
 
 def run_shape(task):
-    name, warm, tier = task
+    name, pool_state, tier = task
+    warm = pool_state == 'warm'
     prog, family = SHAPES[name]
     sub = core.Sub()
     w = world()
     outcomes = set()
     st = dict(executions=0, fired=0)
     def one(plan):
+        if pool_state != 'fresh': return one_here(plan)
+        box = []                    # whole execution (program, post-conditions, follow-ups) in a thread that never connected
+        def body():
+            try: box.append(one_here(plan))
+            finally:
+                try: w.db.disconnect()
+                except Exception: pass
+        th = threading.Thread(target=body, daemon=True)
+        th.start(); th.join(4 * JOIN_TIMEOUT)
+        if not box: raise core.HarnessError('fresh-thread execution of %s did not finish' % name)
+        return box[0]
+    def one_here(plan):
         x = w.run(prog, plan, warm=warm)
         st['executions'] += 1
         comps = examine(w, x)
+        w.hygiene()                 # whatever was left behind has been judged; nothing may leak into the next item of this process
         if plan:
             if x.fired: st['fired'] += 1; sub.count('plans_fired')
             else: sub.count('plans_not_fired')
@@ -254,15 +286,15 @@ def run_shape(task):
                 if len(x.fired) == 2: sub.count('double_fault_plans_both_fired')
         pooled = dict(n for n in x.notes if isinstance(n, tuple) and n[0] == 'pooled')['pooled']
         closes = sum(x.mon.close_attempts.values())
-        outcomes.add('%s|%s|%s|%s|pooled=%s|closes=%d' % (family, 'warm' if warm else 'cold', sites(None, x), x.exc_name(), pooled, closes))
+        outcomes.add('%s|%s|%s|%s|pooled=%s|closes=%d' % (family, pool_state, sites(None, x), x.exc_name(), pooled, closes))
         if x.exc is not None: sub.count('programs_ending_with_exception')
         if plan and x.fired and not pooled: sub.count('plans_after_which_the_pool_dropped_the_connection')
         for comp in comps:
-            sig = 'sqlite|%s|%s|at=%s' % (comp, family, sites(None, x))
-            sub.violation(sig, dict(shape=name, warm=warm, plan=fx.plan_key(plan or {}), components=comps, exception=x.exc_name(),
+            sig = 'sqlite|%s|%s|at=%s' % (comp, family_of(family, x), sites(None, x))
+            sub.violation(sig, dict(shape=name, pool=pool_state, plan=fx.plan_key(plan or {}), components=comps, exception=x.exc_name(),
                                     driver_calls=[fx.call_class(c) for c in x.calls]),
                           'shape %s (%s pool), plan %s -> %s; program ended with %s'
-                          % (name, 'warm' if warm else 'cold', fx.plan_key(plan or {}), comps, x.exc_name()))
+                          % (name, pool_state, fx.plan_key(plan or {}), comps, x.exc_name()))
         return x
     ref = one(None)
     if ref.exc is not None:
@@ -281,7 +313,7 @@ def run_shape(task):
         for k1, f1, n1 in firsts:
             for plan in fx.pair_plans(k1, f1, n1, fx.FAULT_KINDS):
                 one(plan)
-    sub.sample(dict(shape=name, warm=warm, driver_calls=[fx.call_class(c) for c in ref.calls], single_plans=len(firsts) + len(commit_idx)))
+    sub.sample(dict(shape=name, pool=pool_state, driver_calls=[fx.call_class(c) for c in ref.calls], single_plans=len(firsts) + len(commit_idx)))
     return dict(sub=sub.dump(), st=st, outcomes=sorted(outcomes))
 
 # ---- schedule part (TX) -------------------------------------------------------------------------------------
@@ -378,7 +410,16 @@ def run_schedules(task):
             sub.violation('sqlite|schedule|%s|at=%s' % (comp, fp.site),
                           dict(a=aname, threads=nthreads, k=k, fault=fault, choices=list(x.choices), results=res, trace=x.describe(40)),
                           'threads=%d, A=%s with %s at its driver call %s, schedule %s: %s' % (nthreads, aname, fault, k, list(x.choices), comps))
-    stats = ex.explore(bound, visit)
+    try: stats = ex.explore(bound, visit)
+    except Exception as e:
+        # a connection left with an open transaction (or a lock left held) makes the next execution's reset / threads
+        # fail: on the unchanged tree this never happens, so it is reported, and the world is rebuilt
+        import os
+        sub.violation('sqlite|schedule|world-unusable-after-an-execution:%s|at=%s' % (type(e).__name__, fp.site),
+                      dict(a=aname, threads=nthreads, k=k, fault=fault, error=repr(e)[:300]),
+                      'threads=%d, A=%s with %s at its driver call %s: the next execution could not start: %r' % (nthreads, aname, fault, k, e))
+        _TXW.pop(os.getpid(), None)
+        stats = ex.stats()
     if stats['executions'] and len(sub.samples) < 1:
         sub.sample(dict(schedule_part=True, a=aname, threads=nthreads, fault_at_call_of_A=k, fault=fault, executions=stats['executions'],
                         preemption_bound=bound))
@@ -390,7 +431,10 @@ def dispatch(item):
     return ('sched', run_schedules(item[1]))
 
 def run(ctx):
-    items = [('shape', (name, warm, ctx.tier)) for name in sorted(SHAPES) for warm in (False, True)]
+    items = [('shape', (name, ps, ctx.tier)) for name in sorted(SHAPES) for ps in ('cold', 'warm')]
+    fresh = sorted(SHAPES) if not ctx.quick else ['ddl_with', 'opt', 'ro', 'userconn']
+    items += [('shape', (name, 'fresh', ctx.tier)) for name in fresh]
+    nshape_items = len(items)
     tx_ok = True
     try:
         from vf.engines import tx
@@ -417,7 +461,7 @@ def run(ctx):
             sched_outcomes.update(r['outcomes'])
             if r['stats']['capped']: ctx.cap('schedule exploration capped')
     c = ctx.counters
-    ctx.guard('session shapes explored (cold + warm)', c.get('shapes', 0), 2 * len(SHAPES))
+    ctx.guard('session shapes explored (cold + warm + fresh-thread pool)', c.get('shapes', 0), nshape_items)
     ctx.guard('fault plans in which the fault fired', fired, 1500)
     ctx.guard('distinct post-fault outcomes', len(outcomes), 100)
     ctx.guard('plans after which the pool had dropped the connection', c.get('plans_after_which_the_pool_dropped_the_connection', 0), 100)
@@ -436,7 +480,7 @@ def run(ctx):
                                     bounds='thread 0 in {optimistic, immediate, commit/rollback-inside} x fault at each of its driver calls; 2 threads: %s; '
                                            '3 threads: preemption bound %s' % ('all interleavings' if not ctx.quick else 'preemption bound 2',
                                                                               '1 (optimistic, immediate)' if ctx.quick else '2 (1 for the commit/rollback-inside body)'))
-    ctx.cov['bounds'] = ('%d session shapes x {cold, warm pool} x every driver-call index x 3 error classes + lost commit acknowledgement'
+    ctx.cov['bounds'] = ('%d session shapes x {cold, warm, fresh-thread pool} x every driver-call index x 3 error classes + lost commit acknowledgement'
                          % len(SHAPES) + ('' if ctx.quick else ' + every fault pair k1<k2 x 9 class combinations'))
     ctx.assume('SQLite provider only (the transaction lock exists only there); faults replace the driver call; timeout=0 so that SQLite busy '
                'conditions raise instead of waiting')
@@ -456,8 +500,14 @@ def replay(ctx, case):
         print('\n'.join(x.describe(80))); print('results', x.results, 'deadlock', x.deadlock)
         return not x.deadlock and all(r and r[0] == 'ok' for r in x.results[1:])
     w = world()
-    x = w.run(SHAPES[case['shape']][0], fx.plan_from_key(case['plan']), warm=case['warm'])
-    comps = examine(w, x)
+    box = []
+    def go():
+        x = w.run(SHAPES[case['shape']][0], fx.plan_from_key(case['plan']), warm=case['pool'] == 'warm')
+        box.append((x, examine(w, x)))
+    if case['pool'] == 'fresh':
+        th = threading.Thread(target=go); th.start(); th.join()
+    else: go()
+    x, comps = box[0]
     for i, c in enumerate(x.calls): print(' ', i, fx.call_class(c))
     print('fired', x.fired, 'exception', repr(x.exc)); print('components', comps)
     return not comps
